@@ -33,7 +33,7 @@ def _poly_trend(seg, order):
     return tr
 
 
-C_REC = 8.0     # recurrence + windowing: amplitude error <= C_REC * eps * max(L,8)^2 * sum|w||x - trend|
+C_REC = 8.0     # recurrence + windowing: amplitude error <= C_REC * eps * G * sum|w||x - trend|, G = L/max(|sin w|, 1/L) <= L^2
 C_TREND = 16.0   # trend fit / evaluation: amplitude error <= C_TREND * eps * max(L,8) * max|x_seg| * sum|w|
 
 
@@ -52,6 +52,8 @@ def segment_dft(x, starts, L, w, omega, order):
     A = np.zeros(K, dtype=np.longdouble)
     aw = np.abs(w)
     Lb = max(L, 8)
+    # error growth of the Goertzel recurrence over a segment: ~ L / |sin omega|, at most L^2 (near 0 and pi)
+    growth = Lb / max(abs(float(np.sin(float(omega)))), 1.0 / Lb)
     for k, st in enumerate(starts):
         st = int(st)
         seg = x[st:st + L]
@@ -62,11 +64,9 @@ def segment_dft(x, starts, L, w, omega, order):
         Xi[k] = -(v @ s)
         # the recurrence works on the windowed *detrended* samples; the trend itself is fitted from all samples of
         # the segment (a window zero must not hide a large sample), with an error proportional to the largest sample
-        A[k] = C_REC * EPS * Lb * Lb * (aw @ np.abs(res))
+        A[k] = C_REC * EPS * growth * (aw @ np.abs(res))
         if order >= 0 and L > 0:
             A[k] += C_TREND * EPS * Lb * np.max(np.abs(seg)) * aw.sum()
-        else:
-            A[k] += C_REC * EPS * Lb * Lb * 0.0
     return Xr, Xi, A
 
 
